@@ -75,7 +75,7 @@ def run(ctx):
                                              LG + ".datatypes._logging_levels"))
     _verdict(run, "C20.R1", fn, "lower-case, table, 0..50", r, m)
     lowered = all("lower()" in A.fmt(a[1]) for p in A.Interp(fn, P).paths()
-                  for a in p.order if a[0] == "contains")
+                  for a in p.order if a[0] in ("contains", "eq"))
     run.check(lowered, "C20.R1", fn.qualname, "case-insensitive lookup",
               "the table lookup uses the lower-cased input",
               "level names are looked up case-sensitively",
